@@ -224,18 +224,19 @@ def check(run, replay=None):
     nets = 40 if thorough else 8
     for k in range(nets):
         spec = netgen.gen_spec(rng, feat={"leaks": 0.0, "valves": 0.8, "pumps": 0.7, "cv": 0.6, "rules": 0.1, "pdd": 0.3})
-        if spec["pipes"]:
-            # directed: a twin of a pipe drawn in the opposite direction, closed by a time control during the run (the original keeps the part connected)
-            srcs_ = {r_["name"] for r_ in spec["reservoirs"]} | {t_["name"] for t_ in spec["tanks"]}
-            cand_ = [p_ for p_ in spec["pipes"] if not p_["cv"]] or spec["pipes"]
-            p1 = rng.choice([p_ for p_ in cand_ if p_["start"] in srcs_ or p_["end"] in srcs_] or cand_)      # preferably the pipe at a source (a bridge)
-            spec["pipes"].append(dict(p1, name="TWIN", start=p1["end"], end=p1["start"], cv=False, status="OPEN"))
-            spec["controls"].append({"kind": "time", "link": "TWIN", "time": spec["options"]["hydraulic_timestep"], "status": "CLOSED", "priority": 3})
         if k % 2 == 0:
             # directed: a short, wide check-valve bypass in parallel with an ordinary pipe, pointing against the flow
             p0 = rng.choice(spec["pipes"])
             spec["pipes"].append({"name": "CVB", "start": p0["end"], "end": p0["start"], "length": 2.0, "diameter": 1.2, "roughness": 140,
                                   "minor_loss": 0.0, "status": "OPEN", "cv": True})
+        rng2 = random.Random(run.seed * 7717 + k)      # its own stream: the families above keep their draws
+        if spec["pipes"]:
+            # directed: a twin of a pipe drawn in the opposite direction, closed by a time control during the run (the original keeps the part connected)
+            srcs_ = {r_["name"] for r_ in spec["reservoirs"]} | {t_["name"] for t_ in spec["tanks"]}
+            cand_ = [p_ for p_ in spec["pipes"] if not p_["cv"]] or spec["pipes"]
+            p1 = rng2.choice([p_ for p_ in cand_ if p_["start"] in srcs_ or p_["end"] in srcs_] or cand_)      # preferably the pipe at a source (a bridge)
+            spec["pipes"].append(dict(p1, name="TWIN", start=p1["end"], end=p1["start"], cv=False, status="OPEN"))
+            spec["controls"].append({"kind": "time", "link": "TWIN", "time": spec["options"]["hydraulic_timestep"], "status": "CLOSED", "priority": 3})
         try:
             wn = netgen.build(spec, wntr)
         except Exception:
